@@ -434,6 +434,84 @@ fn mutate(doc: &mut J, r: &mut Rng) {
     }
 }
 
+/// every single-node mutation from a fixed list, at every node of `doc`
+fn sweep<W: Write>(out: &mut W, doc: &J) {
+    let n = doc.size();
+    let leaves = [
+        J::Null,
+        J::Bool(true),
+        J::Num("0".into()),
+        J::Num("1".into()),
+        J::Num("-1".into()),
+        J::Num("1.5".into()),
+        J::Str("x".into()),
+        J::Str("usd".into()),
+        J::Arr(vec![]),
+        J::Obj(vec![]),
+    ];
+    for pos in 0..n {
+        for l in &leaves {
+            let mut d = doc.clone();
+            *d.at(pos) = l.clone();
+            writeln!(out, "loadjson {}", hex_encode(&d.text())).unwrap();
+        }
+        let mut variants: Vec<J> = Vec::new();
+        {
+            let mut d = doc.clone();
+            match d.at(pos) {
+                J::Obj(kvs) => {
+                    for i in 0..kvs.len() {
+                        let mut k2 = kvs.clone();
+                        k2.remove(i);
+                        variants.push(J::Obj(k2));
+                        let mut k3 = kvs.clone();
+                        let dup = k3[i].clone();
+                        k3.push(dup);
+                        variants.push(J::Obj(k3));
+                    }
+                    variants.push(J::Arr(kvs.iter().map(|(_, v)| v.clone()).collect()));
+                }
+                J::Arr(a) => {
+                    for i in 0..a.len().min(4) {
+                        let mut a2 = a.clone();
+                        a2.remove(i);
+                        variants.push(J::Arr(a2));
+                    }
+                    if !a.is_empty() {
+                        variants.push(J::Arr(vec![a[0].clone()]));
+                        let mut a3 = a.clone();
+                        a3.push(a[0].clone());
+                        variants.push(J::Arr(a3));
+                        let mut a4 = a.clone();
+                        a4.reverse();
+                        variants.push(J::Arr(a4));
+                    }
+                }
+                J::Num(t) => {
+                    if let Ok(v) = t.parse::<i64>() {
+                        for dlt in [-1i64, 1, 2] {
+                            variants.push(J::Num((v + dlt).to_string()));
+                        }
+                        variants.push(J::Num("255".into()));
+                        variants.push(J::Num("256".into()));
+                    }
+                }
+                J::Str(_) => {
+                    for t in ["", "USD", "usdx", "tgt", "xyz", "a|b|c", "2023-02-29T00:00:00", "Mon"] {
+                        variants.push(J::Str(t.into()));
+                    }
+                }
+                _ => {}
+            }
+        }
+        for v in variants {
+            let mut d = doc.clone();
+            *d.at(pos) = v;
+            writeln!(out, "loadjson {}", hex_encode(&d.text())).unwrap();
+        }
+    }
+}
+
 /* ---------- valid documents, built by the library's own serialiser ---------- */
 
 #[derive(serde::Serialize)]
@@ -564,6 +642,57 @@ pub fn gen_c20<W: Write>(out: &mut W, thorough: bool, seed: u64) {
     }
     let rounds = if thorough { 400 } else { 12 };
     let mods = ["Act", "F", "ModF", "P", "ModP"];
+
+    /* once per run: EVERY target month 1970-02..2200-11 with the roll days that can exceed a month's
+       length, from a start date a random number of months away (exhaustive over target months) */
+    writeln!(out, "cal 1 0000011 0").unwrap();
+    for target in (1970 * 12 + 1)..=(2200 * 12 + 10) {
+        // target = year * 12 + (month - 1)
+        let start_day = r.range(0, 84370);
+        let sd = crate::dates::day(start_day);
+        use chrono::Datelike;
+        let start_idx = sd.year() as i64 * 12 + (sd.month() as i64 - 1);
+        let k = target - start_idx;
+        let roll = match (target + start_day) % 6 {
+            0 => "i29",
+            1 => "i30",
+            2 => "i31",
+            3 => "e",
+            4 => "u",
+            _ => "i28",
+        };
+        writeln!(out, "addmonths 1 {} {} {} {} 0", start_day, k, mods[(target % 5) as usize], roll).unwrap();
+        // February of every year additionally with every long roll day
+        if target % 12 == 1 {
+            for roll in ["i29", "i30", "i31", "e"] {
+                writeln!(out, "addmonths 1 {} {} Act {} 0", start_day, k, roll).unwrap();
+            }
+        }
+    }
+    writeln!(out, "reset").unwrap();
+
+    /* once per run: a systematic sweep of SINGLE mutations over every node of template documents of
+       every tagged kind */
+    {
+        let mut rs = Rng::new(seed ^ 0x5EE9);
+        let mut seen_kinds = std::collections::HashMap::new();
+        let mut tries = 0;
+        while tries < 400 {
+            tries += 1;
+            let doc = valid_doc(&mut rs);
+            let kind = match &doc {
+                J::Obj(kvs) if !kvs.is_empty() => kvs[0].0.clone(),
+                _ => continue,
+            };
+            let cnt = seen_kinds.entry(kind).or_insert(0usize);
+            if *cnt >= (if thorough { 6 } else { 2 }) {
+                continue;
+            }
+            *cnt += 1;
+            sweep(out, &doc);
+        }
+    }
+
     for round in 0..rounds {
         /* date arithmetic: every 8-bit day count, on calendars of all three kinds */
         let mask: String = loop {
@@ -678,18 +807,26 @@ pub fn gen_c20<W: Write>(out: &mut W, thorough: bool, seed: u64) {
         }
 
         /* spline solving: regular, singular, non-finite and mismatched systems */
-        for _ in 0..6 {
-            let k = r.range(2, 4) as usize;
-            let mut t = vec![0.0; k];
-            let mut pos = 0.0;
-            for _ in 0..r.range(0, 3) {
-                pos += 1.0;
-                t.push(pos);
-            }
-            pos += 1.0;
-            for _ in 0..k {
-                t.push(pos);
-            }
+        for q in 0..8 {
+            // regular splines (k-fold end knots) and degenerate ones: a single coefficient (n = 1), none (n = 0)
+            let (k, t, pos): (usize, Vec<f64>, f64) = match q {
+                6 => r.pick(&[(1usize, vec![0.0, 1.0], 1.0), (2, vec![0.0, 0.0, 1.0], 1.0), (3, vec![0.0, 0.0, 1.0, 1.0], 1.0)]).clone(),
+                7 => r.pick(&[(2usize, vec![0.0, 1.0], 1.0), (1, vec![0.0, 0.5, 1.0], 1.0), (3, vec![0.0, 1.0, 2.0], 2.0)]).clone(),
+                _ => {
+                    let k = r.range(2, 4) as usize;
+                    let mut t = vec![0.0; k];
+                    let mut pos = 0.0;
+                    for _ in 0..r.range(0, 3) {
+                        pos += 1.0;
+                        t.push(pos);
+                    }
+                    pos += 1.0;
+                    for _ in 0..k {
+                        t.push(pos);
+                    }
+                    (k, t, pos)
+                }
+            };
             let n = t.len() - k;
             let ts: Vec<String> = t.iter().map(|x| hf(*x)).collect();
             let kind = *r.pick(&["f", "1", "2"]);
